@@ -3,6 +3,8 @@ import PlatypusModel.Model.Gray
 import PlatypusModel.Model.Dominance
 import PlatypusModel.Model.Constraint
 import PlatypusModel.Model.PyFloat
+import PlatypusModel.Model.Epsilon
+import PlatypusModel.Model.Sorting
 open Wire Platypus
 
 namespace Ops
@@ -93,8 +95,99 @@ def opsConstraint (op : String) : Option (P String) :=
       pure s!"{showRat (totalViolation d cs xs)} {if feasible d cs xs then 1 else 0}"
   | _ => none
 
+/-- `id cv n o1 … on` on the Float wire -/
+def solF : P (Sol Float) := do
+  let id ← nat; let cv ← flt; let objs ← list flt
+  pure { id := id, objs := objs, cv := cv }
+
+def solQ : P (Sol Rat) := do
+  let id ← nat; let cv ← rat; let objs ← list rat
+  pure { id := id, objs := objs, cv := cv }
+
+def flF (x : Float) : Float := x.floor
+def sqF (x : Float) : Float := Float.pow x 2.0
+def flQ (x : Rat) : Rat := (x.floor : Int)
+def sqQ (x : Rat) : Rat := x * x
+
+/-- Python raises before producing an answer: empty epsilon list (IndexError), zero epsilon
+(ZeroDivisionError), non-finite quotient (OverflowError / ValueError in math.floor) -/
+def epsGuardF (dirs : List Bool) (eps : List Float) (sols : List (Sol Float)) : Option String :=
+  if dirs.isEmpty then none
+  else if eps.isEmpty then some "err:index"
+  else
+    let es := (List.range dirs.length).map fun i => eps.getD i (eps.getLast?.getD 0.0)
+    let bad := sols.any fun s => (List.zip es s.objs).any fun (e, o) => e == 0.0
+    let bad2 := sols.any fun s => (List.zip es s.objs).any fun (e, o) => !(o / e).isFinite
+    if bad then some "err:zerodiv" else if bad2 then some "err:domain" else none
+
+def epsTrace {σ} (cmp : σ → σ → Int) (same : σ → σ → Bool) (getId : σ → Nat) (xs : List σ) : String :=
+  let step := fun (st : (List σ × Nat) × List String) (s : σ) =>
+    let r := epsArchiveAdd cmp same st.1 s
+    (r.1, s!"{if r.2 then 1 else 0}:{showIds (r.1.1.map getId)}:{r.1.2}" :: st.2)
+  let (_, out) := xs.foldl step (([], 0), [])
+  if out.isEmpty then "-" else " ".intercalate out.reverse
+
+def opsEps (op : String) : Option (P String) :=
+  match op with
+  | "epsF" => some do
+      let c ← bool; let dirs ← list bool; let eps ← list flt; let a ← solF; let b ← solF
+      match epsGuardF dirs eps [a, b] with
+      | some e => pure e
+      | none => pure s!"{epsCompare flF sqF c dirs eps a b} {if sameBox flF c dirs eps a b then 1 else 0}"
+  | "epsQ" => some do
+      let c ← bool; let dirs ← list bool; let eps ← list rat; let a ← solQ; let b ← solQ
+      pure s!"{epsCompare flQ sqQ c dirs eps a b} {if sameBox flQ c dirs eps a b then 1 else 0}"
+  | "epsArchF" => some do
+      let c ← bool; let dirs ← list bool; let eps ← list flt; let xs ← list solF
+      match epsGuardF dirs eps xs with
+      | some e => pure e
+      | none => pure (epsTrace (epsCompare flF sqF c dirs eps) (sameBox flF c dirs eps) (·.id) xs)
+  | "epsArchQ" => some do
+      let c ← bool; let dirs ← list bool; let eps ← list rat; let xs ← list solQ
+      pure (epsTrace (epsCompare flQ sqQ c dirs eps) (sameBox flQ c dirs eps) (·.id) xs)
+  | "archiveEpsF" => some do   -- plain Archive with the ε comparator (OMOPSO / CMA-ES style)
+      let c ← bool; let dirs ← list bool; let eps ← list flt; let xs ← list solF
+      match epsGuardF dirs eps xs with
+      | some e => pure e
+      | none => pure (archiveTrace (epsCompare flF sqF c dirs eps) (·.id) [] xs)
+  | _ => none
+
+structure RS where
+  id : Nat
+  rank : Nat
+  objs : List Float
+
+def showNats (l : List Nat) : String := if l.isEmpty then "-" else " ".intercalate (l.map toString)
+
+def opsSorting (op : String) : Option (P String) :=
+  match op with
+  | "nsort" => some do
+      let c ← bool; let dirs ← list bool; let xs ← list solE
+      let fronts := sortFronts (paretoCompare c dirs) (·.id) xs
+      pure (" ".intercalate ("r" :: xs.map fun x =>
+        match rankIn (·.id) fronts x.id with | some r => toString r | none => "none"))
+  | "crowdF" => some do
+      let nobjs ← nat; let front ← list (list flt)
+      pure (" ".intercalate ("c" :: (crowdingF nobjs front).map showFlt))
+  | "ntrunc" => some do
+      let xs ← list (do let id ← nat; let r ← nat; let cd ← flt; pure ({ id := id, rank := r, cd := cd } : Ranked Float))
+      let k ← nat
+      pure ("t " ++ showNats ((nondominatedTruncate xs k).map (·.id)))
+  | "nsplit" => some do
+      let xs ← list (do let id ← nat; let r ← nat; pure (id, r))
+      let k ← nat
+      let (a, b) := nondominatedSplit (·.2) xs k
+      pure s!"s {showNats (a.map (·.1))} | {showNats (b.map (·.1))}"
+  | "nprune" => some do
+      let nobjs ← nat
+      let xs ← list (do let id ← nat; let r ← nat; let o ← list flt; pure ({ id := id, rank := r, objs := o } : RS))
+      let k ← nat
+      let res := nondominatedPrune (·.rank) (fun rem => crowdingF nobjs (rem.map (·.objs))) (fun a b => a >= b) xs k
+      pure ("p " ++ showNats (res.map (·.id)))
+  | _ => none
+
 def dispatch (op : String) (args : List String) : Except String String :=
-  match (opsGray op <|> opsDominance op <|> opsConstraint op) with
+  match (opsGray op <|> opsDominance op <|> opsConstraint op <|> opsEps op <|> opsSorting op) with
   | some p => Wire.run p args
   | none => .error "bad-op"
 
